@@ -1,6 +1,7 @@
 """E1 - program model of /repo (parsed, never imported) + reporting / evidence / exit policy."""
 import ast
 import hashlib
+import re
 import json
 import os
 import sys
@@ -559,7 +560,7 @@ def decontinue(fn):
     return fn
 
 
-def inline_pure_aliases(fn, keep=()):
+def inline_pure_aliases(fn, keep=(), only=None):
     """copy of a function in which every local that is bound exactly once, at the top level of the body, to a pure path
     expression (names, attributes, constant / name subscripts - no calls, no arithmetic) is replaced by that expression,
     provided nothing the expression mentions is re-bound or stored into anywhere in the function.  `off = pstate["off"]`
@@ -656,7 +657,7 @@ def inline_pure_aliases(fn, keep=()):
                     if not hit:
                         break
                 return e
-            if binds.get(nm) == 1 and nm not in params and nm not in keep and not invalidated(expanded(s.value)) and all(stable(f) for f in free) \
+            if binds.get(nm) == 1 and nm not in params and nm not in keep and (only is None or nm in only) and not invalidated(expanded(s.value)) and all(stable(f) for f in free) \
                     and (nm,) not in stored_paths and not any(q[0] == nm for q in stored_paths | mutated_paths):
                 alias[nm] = s
     if not alias:
@@ -713,6 +714,10 @@ class Model:
                 self.tree[mod] = ast.parse(text, filename=rel)
             except SyntaxError as e:
                 raise AnalysisError("%s does not parse: %s" % (rel, e))
+        # names, helpers and constants a maintenance commit introduced are brought back to the inventory's vocabulary (sa/canon.py)
+        from .canon import canonicalise
+        self.canon_notes = canonicalise(self.tree)
+        for mod in self.tree:
             inline_registry_aliases(self.tree[mod])
             desugar_tree(self.tree[mod])
             for node in ast.walk(self.tree[mod]):
@@ -851,10 +856,20 @@ class Model:
 
 
 # ---------------------------------------------------------------------------------------------- reporting
+_SCALED = re.compile(r"(\.py:|line )(\d{6,})")
+
+
+def unscale(text):
+    """line numbers of functions that received inlined code are scaled by 1000 (sa/canon.py scale_lines); print the source line"""
+    if not isinstance(text, str):
+        return text
+    return _SCALED.sub(lambda m: m.group(1) + str(int(m.group(2)) // 1000), text)
+
+
 class Finding:
     def __init__(self, prop, rule, construct, where, message, key, detail=None):
-        self.prop, self.rule, self.construct, self.where = prop, rule, construct, where
-        self.message, self.key, self.detail = message, key, detail or {}
+        self.prop, self.rule, self.construct, self.where = prop, rule, construct, unscale(where)
+        self.message, self.key, self.detail = unscale(message), unscale(key), detail or {}
 
     def ident(self):
         return (self.prop, self.rule, self.construct, self.key)
@@ -899,7 +914,7 @@ class Report:
             return None
 
     def instance(self, rule, construct, where, ok=True, note=""):
-        self.instances.append({"rule": rule, "construct": construct, "where": where, "verdict": "ok" if ok else "VIOLATED", "note": note})
+        self.instances.append({"rule": rule, "construct": construct, "where": unscale(where), "verdict": "ok" if ok else "VIOLATED", "note": note})
         self.obligations += 1
         if ok:
             self.discharged += 1
